@@ -22,7 +22,19 @@ import (
 
 func init() {
 	lab.Register("c01-xe2e", c01XE2E)
+	// the same lab under C07: what varies is how the byte stream is cut into writes (with pauses, so that the cuts survive as reads)
+	// and on the detecting lanes every batch opens a fresh connection, so the protocol is detected from its first bytes each time
+	lab.Register("c07-xe2e", func(c *lab.Ctx) {
+		xePrefix, xeSegHeavy = "C07", true
+		c01XE2E(c)
+	})
 }
+
+// xePrefix is the property the lab reports under; xeSegHeavy selects the segmentation-centred variant (C07)
+var (
+	xePrefix   = "C01"
+	xeSegHeavy = false
+)
 
 // xeFrameEv is one frame the recording upstream extracted from a connection.
 type xeFrameEv struct {
@@ -276,6 +288,7 @@ func c01XE2E(c *lab.Ctx) {
 	type lane struct {
 		codec, key, addr string
 		up               *xeUpstream
+		auto             bool
 	}
 	var lanes []*lane
 	nl := 2
@@ -294,8 +307,14 @@ func c01XE2E(c *lab.Ctx) {
 			cfg.Routers = append(cfg.Routers, jmap{"router_config_name": "rt-xe-" + key, "virtual_hosts": []jmap{{"name": "vh", "domains": []string{"*"},
 				"routers": []jmap{{"match": jmap{}, "route": jmap{"cluster_name": "xe-" + key, "timeout": "20s"}}}}}})
 			port := ports[i*nl+li]
-			cfg.Listeners = append(cfg.Listeners, mosnListener{Name: "ln-xe-" + key, Port: port, Downstream: n, Upstream: n, Router: "rt-xe-" + key})
-			lanes = append(lanes, &lane{codec: n, key: key, addr: fmt.Sprintf("127.0.0.1:%d", port), up: u})
+			if li == 1 {
+				// the second lane of every codec is a protocol-DETECTING listener (all codecs are registered, as in the mosn binary):
+				// the codec is chosen from the first bytes of each connection, the upstream protocol is the detected one
+				cfg.Listeners = append(cfg.Listeners, mosnListener{Name: "ln-xe-" + key, Port: port, Downstream: "Auto", Upstream: "", Router: "rt-xe-" + key})
+			} else {
+				cfg.Listeners = append(cfg.Listeners, mosnListener{Name: "ln-xe-" + key, Port: port, Downstream: n, Upstream: n, Router: "rt-xe-" + key})
+			}
+			lanes = append(lanes, &lane{codec: n, key: key, addr: fmt.Sprintf("127.0.0.1:%d", port), up: u, auto: li == 1})
 		}
 	}
 	if err := startMosn(c, cfg.JSON()); err != nil {
@@ -303,6 +322,9 @@ func c01XE2E(c *lab.Ctx) {
 		return
 	}
 	nCases := c.Pick(6000, 20000)
+	if xeSegHeavy {
+		nCases = c.Pick(700, 4000) // every cut is followed by a pause
+	}
 	var wg sync.WaitGroup
 	var okMu sync.Mutex
 	okExchanges := map[string]int{}
@@ -310,7 +332,7 @@ func c01XE2E(c *lab.Ctx) {
 		wg.Add(1)
 		go func(l *lane) {
 			defer wg.Done()
-			done := xeRunCodec(c, l.codec, l.key, l.addr, l.up, nCases)
+			done := xeRunCodec(c, l.codec, l.key, l.addr, l.up, nCases, l.auto)
 			okMu.Lock()
 			okExchanges[l.codec] += done
 			okMu.Unlock()
@@ -380,7 +402,7 @@ func xeDrain(u *xeUpstream) {
 	}
 }
 
-func xeRunCodec(c *lab.Ctx, name, key, addr string, u *xeUpstream, nCases int) int {
+func xeRunCodec(c *lab.Ctx, name, key, addr string, u *xeUpstream, nCases int, auto bool) int {
 	rng := c.Rand("xe2e-" + key)
 	cl := &xeClient{codec: name, addr: addr}
 	if err := cl.connect(); err != nil {
@@ -457,6 +479,17 @@ func xeRunCodec(c *lab.Ctx, name, key, addr string, u *xeUpstream, nCases int) i
 			}
 		}
 		seg := rng.PickStr("whole", "whole", "frames", "cuts", "cuts")
+		if xeSegHeavy {
+			seg = rng.PickStr("whole", "frames", "cuts", "cuts", "tail", "tail", "head")
+		}
+		// a detecting listener decides on the first bytes of a connection: one batch in four (C07 variant: every batch) opens a new one
+		if auto && (xeSegHeavy || rng.Chance(1, 4)) {
+			if err := cl.connect(); err != nil {
+				c.Inconclusive("reconnect: " + err.Error())
+				continue
+			}
+			c.Count("xe2e_fresh_connections_on_detecting_lanes", 1)
+		}
 		c.Case("xe2e %s lane="+key+" case=%d k=%d slow=%d seg=%s frames=[%s]", name, ci, k, slow, seg, truncate(strings.Join(descs, " | "), 600))
 		c.Eval(1)
 		witness := func(extra string) map[string]interface{} {
@@ -479,6 +512,18 @@ func xeRunCodec(c *lab.Ctx, name, key, addr string, u *xeUpstream, nCases int) i
 			}
 			cuts = append(cuts, len(stream))
 			sortInts(cuts)
+		case "tail": // all of the first frame but its last 1..8 bytes, then the rest: a long incomplete frame sits in the read buffer
+			fl := len(reqs[0].rf.Raw)
+			cut := fl - 1 - rng.Intn(8)
+			if cut < 1 {
+				cut = 1
+			}
+			cuts = []int{cut, len(stream)}
+		case "head": // the first 40 bytes one by one, then the rest
+			for i := 1; i < len(stream) && i <= 40; i++ {
+				cuts = append(cuts, i)
+			}
+			cuts = append(cuts, len(stream))
 		default:
 			cuts = []int{len(stream)}
 		}
@@ -493,6 +538,9 @@ func xeRunCodec(c *lab.Ctx, name, key, addr string, u *xeUpstream, nCases int) i
 				if _, err := cl.cn.Write(stream[prev:ct]); err != nil {
 					werr <- err
 					return
+				}
+				if xeSegHeavy && ct < len(stream) {
+					time.Sleep(2 * time.Millisecond) // let the proxy read what was written so far: the cut becomes a read boundary
 				}
 				prev = ct
 			}
@@ -521,7 +569,7 @@ func xeRunCodec(c *lab.Ctx, name, key, addr string, u *xeUpstream, nCases int) i
 		u.bad = ""
 		u.mu.Unlock()
 		if bad != "" {
-			c.Violation("a forwarded xprotocol frame is byte-identical to the received frame except for the request id", "C01/xe2e/"+name+"/request-stream-unframeable", bad, witness(bad))
+			c.Violation("a forwarded xprotocol frame is byte-identical to the received frame except for the request id", xePrefix+"/xe2e/"+name+"/request-stream-unframeable", bad, witness(bad))
 			_ = cl.connect()
 			continue
 		}
@@ -531,7 +579,7 @@ func xeRunCodec(c *lab.Ctx, name, key, addr string, u *xeUpstream, nCases int) i
 				// bytes arrived that the reference framer cannot complete into the sent frames: the forwarded stream is not the sent one
 				exp := stream
 				what := fmt.Sprintf("%s: %s; the upstream holds %d bytes that do not complete a frame (head % x); sent stream head % x", name, failed, len(pb), pb[:minInt(len(pb), 24)], exp[:minInt(len(exp), 24)])
-				c.Violation("a forwarded xprotocol frame is byte-identical to the received frame except for the request id", "C01/xe2e/"+name+"/request-stream-desynchronised", what, witness(what))
+				c.Violation("a forwarded xprotocol frame is byte-identical to the received frame except for the request id", xePrefix+"/xe2e/"+name+"/request-stream-desynchronised", what, witness(what))
 				u.closeAll()
 				_ = cl.connect()
 				continue
@@ -540,7 +588,7 @@ func xeRunCodec(c *lab.Ctx, name, key, addr string, u *xeUpstream, nCases int) i
 			fr, rerr := cl.readFrame(300 * time.Millisecond)
 			if rerr == nil || rerr == io.EOF || strings.Contains(fmt.Sprint(rerr), "reset") {
 				what := fmt.Sprintf("%s: %s; the proxy answered with a %d-byte frame (% x) / err=%v instead of forwarding well-formed requests", name, failed, len(fr), fr[:minInt(len(fr), 48)], rerr)
-				c.Violation("a well-formed request reaches the other side", "C01/xe2e/"+name+"/request-not-forwarded", what, witness(what))
+				c.Violation("a well-formed request reaches the other side", xePrefix+"/xe2e/"+name+"/request-not-forwarded", what, witness(what))
 			} else {
 				c.Inconclusive("xe2e " + name + ": " + failed)
 			}
@@ -575,7 +623,7 @@ func xeRunCodec(c *lab.Ctx, name, key, addr string, u *xeUpstream, nCases int) i
 				}
 				if found < 0 {
 					what := fmt.Sprintf("tars request forwarded with different content: %s", why)
-					c.Violation("a forwarded frame carries the same content", "C01/xe2e/tars/request-altered", what, witness(what))
+					c.Violation("a forwarded frame carries the same content", xePrefix+"/xe2e/tars/request-altered", what, witness(what))
 					violated = true
 					break
 				}
@@ -602,7 +650,7 @@ func xeRunCodec(c *lab.Ctx, name, key, addr string, u *xeUpstream, nCases int) i
 					cls = "length-differs"
 				}
 				what := fmt.Sprintf("%s request forwarded altered (%s): sent %d bytes (%s), upstream received %d bytes, first difference at offset %d (id field at %d..%d)", name, cls, len(ref.Raw), ref.Desc, len(ev.raw), xeMaskedDiff(name, ref.Raw, ev.raw), ref.IDOff, ref.IDOff+ref.IDLen)
-				c.Violation("a forwarded xprotocol frame is byte-identical to the received frame except for the request id", "C01/xe2e/"+name+"/request-altered/"+cls, what, witness(what))
+				c.Violation("a forwarded xprotocol frame is byte-identical to the received frame except for the request id", xePrefix+"/xe2e/"+name+"/request-altered/"+cls, what, witness(what))
 				violated = true
 				break
 			}
@@ -676,7 +724,7 @@ func xeRunCodec(c *lab.Ctx, name, key, addr string, u *xeUpstream, nCases int) i
 				if ne, ok := err.(net.Error); ok && ne.Timeout() {
 					c.Inconclusive("xe2e " + what)
 				} else {
-					c.Violation("a response reaches the client unchanged", "C01/xe2e/"+name+"/response-not-delivered", what, witness(what))
+					c.Violation("a response reaches the client unchanged", xePrefix+"/xe2e/"+name+"/response-not-delivered", what, witness(what))
 				}
 				violated = true
 				break
@@ -686,20 +734,20 @@ func xeRunCodec(c *lab.Ctx, name, key, addr string, u *xeUpstream, nCases int) i
 				p, perr := parseTarsResponse(fr)
 				if perr != nil {
 					what := fmt.Sprintf("tars response from the proxy does not parse: %v", perr)
-					c.Violation("a response reaches the client unchanged", "C01/xe2e/tars/response-altered", what, witness(what))
+					c.Violation("a response reaches the client unchanged", xePrefix+"/xe2e/tars/response-altered", what, witness(what))
 					violated = true
 					break
 				}
 				pd := expect[uint64(uint32(p.IRequestId))]
 				if pd == nil {
 					what := fmt.Sprintf("tars response with request id %d which no pending request of this batch carries", p.IRequestId)
-					c.Violation("a response reaches the client unchanged", "C01/xe2e/tars/response-id-unknown", what, witness(what))
+					c.Violation("a response reaches the client unchanged", xePrefix+"/xe2e/tars/response-id-unknown", what, witness(what))
 					violated = true
 					break
 				}
 				delete(expect, uint64(uint32(p.IRequestId)))
 				if d := xeTarsEqual(pd.sent, fr, false); d != "" {
-					c.Violation("a response reaches the client unchanged", "C01/xe2e/tars/response-altered", d, witness(d))
+					c.Violation("a response reaches the client unchanged", xePrefix+"/xe2e/tars/response-altered", d, witness(d))
 					violated = true
 					break
 				}
@@ -708,7 +756,7 @@ func xeRunCodec(c *lab.Ctx, name, key, addr string, u *xeUpstream, nCases int) i
 			off, n, ok := xeIDSpan(name, fr)
 			if !ok {
 				what := fmt.Sprintf("%s: %d-byte frame from the proxy is shorter than a header", name, len(fr))
-				c.Violation("a response reaches the client unchanged", "C01/xe2e/"+name+"/response-altered/short", what, witness(what))
+				c.Violation("a response reaches the client unchanged", xePrefix+"/xe2e/"+name+"/response-altered/short", what, witness(what))
 				violated = true
 				break
 			}
@@ -721,7 +769,7 @@ func xeRunCodec(c *lab.Ctx, name, key, addr string, u *xeUpstream, nCases int) i
 			pd := expect[id]
 			if pd == nil {
 				what := fmt.Sprintf("%s: response with request id %d which no pending request of this batch carries (%d bytes: % x)", name, id, len(fr), fr[:minInt(len(fr), 48)])
-				c.Violation("a response reaches the client unchanged", "C01/xe2e/"+name+"/response-id-unknown", what, witness(what))
+				c.Violation("a response reaches the client unchanged", xePrefix+"/xe2e/"+name+"/response-id-unknown", what, witness(what))
 				violated = true
 				break
 			}
@@ -732,7 +780,7 @@ func xeRunCodec(c *lab.Ctx, name, key, addr string, u *xeUpstream, nCases int) i
 					cls = "length-differs"
 				}
 				what := fmt.Sprintf("%s response delivered altered (%s): upstream wrote %d bytes (%s), client received %d bytes, first difference at offset %d (id field at %d..%d)", name, cls, len(pd.sent), pd.rq.rresp.Desc, len(fr), xeMaskedDiff(name, pd.sent, fr), off, off+n)
-				c.Violation("a response reaches the client unchanged", "C01/xe2e/"+name+"/response-altered/"+cls, what, witness(what))
+				c.Violation("a response reaches the client unchanged", xePrefix+"/xe2e/"+name+"/response-altered/"+cls, what, witness(what))
 				violated = true
 				break
 			}
@@ -747,7 +795,7 @@ func xeRunCodec(c *lab.Ctx, name, key, addr string, u *xeUpstream, nCases int) i
 		select {
 		case ev := <-u.got:
 			what := fmt.Sprintf("%s: a frame of %d bytes reached the upstream in addition to the %d sent", name, len(ev.raw), k)
-			c.Violation("each frame is forwarded exactly once", "C01/xe2e/"+name+"/surplus-frame-forwarded", what, witness(what))
+			c.Violation("each frame is forwarded exactly once", xePrefix+"/xe2e/"+name+"/surplus-frame-forwarded", what, witness(what))
 			_ = cl.connect()
 			continue
 		default:
